@@ -147,6 +147,77 @@ claim("C11",
       "Trusted: Coq kernel, extraction + driver, harness. Folder path assignment, update, update_entry, split, move-a-side: correspondence + oracle only, no preservation proof.",
       PURE_TECH, "DESIGN.md §6 C11")
 
+
+# ---- from notes/C12_claim.py
+# Proposed replacement of the claim("C12", ...) call in harness/manifest_gen.py (do not edit that file here).
+# What is new: "move out = delete, move in = create" and "declined paths are left alone" are theorems about
+# every accepted trace (MonitorBoundary.v, PropC12.v), no longer only convergence of the views.
+claim("C12",
+      "Coq proof (all traces, any length, any trees): every engine-issued provider mutation of an accepted trace addresses only paths "
+      "inside the root of its side, the part of each provider tree outside the root is identical before and after it "
+      "(C12_engine_confined), and no addressed path has a component the application's translate function declines "
+      "(C12_declined_left_alone; guard DECLINED, the declined names are part of the run's configuration). "
+      "For accepted one-sided runs (users act on one side s0; initial tree of s0 well-formed = unique paths, every parent a stored folder): "
+      "the entries strictly below a root and all the others determine the tree (C12_view_and_outside_determine_tree), hence no engine "
+      "action changes the acting side at all and after every observation its tree equals the initial tree with the user's ABSOLUTE "
+      "operations applied, renames with one end outside the root included (C12_origin_tree_is_history, C12_origin_tree_observed); "
+      "at every quiet report of a run that demands the absence of conflicted names the peer's view equals the root view of that tree "
+      "(C12_boundary_moves_mirror). Spelled out for an applicable rename that is the last user operation before a quiet report "
+      "(applicability = TreeProofs.rename_ok of the tree itself; C12_rename_applicable: source exists, not an ancestor of the target, "
+      "target free, target's parent a folder): source strictly inside the root and target not => the peer's view has nothing at or "
+      "below the source's relative path and is the previous root view everywhere else (C12_move_out_is_delete); source not strictly "
+      "inside and target strictly inside => the peer's view has at the target's relative path and below exactly what the acting side "
+      "had at the source and below, and is the previous root view everywhere else (C12_move_in_is_create). Non-vacuity: a concrete "
+      "accepted one-sided trace with a file moved out and a folder with content moved in, both corollaries instantiated on it, and "
+      "rejected variants (peer copy left behind: CONVERGE; declined path addressed: DECLINED; outside write: CONFINED). "
+      "Translation into/out of the roots by the default translate: C13's theorems; nothing about an arbitrary translate function is "
+      "proved beyond 'declined names are never addressed'. "
+      "Tie: histories mixing objects inside the roots, in other folders, in prefix-sibling folders (/local2, /localx), at the account "
+      "root, file/folder moves across the boundary, roots given by path or by oid, and a translate function declining a sub-folder, each "
+      "run on the real engine as a one-sided run with origin = the acting side and (except the declining variant, whose ignore list "
+      "doubles as the conflicted list) no_conflicted = true, i.e. exactly the hypotheses of the boundary theorems; every explored run "
+      "must be accepted by the extracted acceptor. Not proved / not checked at run time: well-formedness of the initial tree is a "
+      "hypothesis (true of every MockProvider tree; TreeProofs.wfb decides it); two-sided runs get confinement and DECLINED only; "
+      "a boundary move whose effect is still in flight at the end of a run (no quiet report after it) is constrained only by "
+      "confinement.",
+      ENGINE_NOTE, ENGINE_TECH, "DESIGN.md §3.2, §6 C12")
+
+
+# ---- from notes/C20_claim.py
+# paste into harness/manifest_gen.py (after the other engine-level claims; ENGINE_NOTE / ENGINE_TECH are defined there)
+claim("C20",
+      "Coq proof (37 theorems, no axioms), every statement for an ARBITRARY auto-sync predicate. (a) Gate — an executable model of the "
+      "mechanism in cloudsync/smartsync.py over arbitrary entry tables, request / exclude sets and local provider contents: an entry that "
+      "is a remote-only file, not requested and not matched never reaches the sync step (it is not offered, or it is finished at "
+      "pre_sync) and the filter does not request it; folders, requested entries and entries with a live local file always pass; a pending "
+      "folder / requested entry / fresh local change is always offered; request registers the entry, un-excludes it, marks the remote side "
+      "changed, forgets a stale local side and processes changed ancestors first (and raises, after registering, when the remote path is "
+      "unknown: finding S-1); un-request issues only a push of the entry and a delete of the LOCAL object and leaves an entry that cannot be "
+      "read as a local deletion; the merged listing of one folder. (b) smart_spec — big-step outcomes over (remote tree, local tree, "
+      "requested, un-requested, locally born) for ALL sequences of remote create/mkdir/edit/delete, local create/mkdir/edit, request, "
+      "un-request and edit-then-un-request: an invariant of every reachable state gives folders_always_mirrored, local_tree_uploaded / "
+      "local_creations_uploaded, never_download_unrequested (+ trace form: a file is local only if the sequence contains its request, its "
+      "matched remote creation or its local creation), requested_kept_in_sync (+ persistence, both directions), unrequest_keeps_remote "
+      "(remote tree identical; with a pending local edit: identical except that file's content) and removes only the local copy, "
+      "unrequested_stays_remote (predicate or not), listing_law. (c) Monitor — for every observation trace accepted by mon_accept: a file "
+      "that appears locally while its remote file exists was requested, or is matched and not un-requested; after a successful un-request "
+      "no engine action brings the file back until it is requested again; a remote file disappears through an engine action only outside "
+      "any un-request call and only if a user deleted the local copy (never, when no user deletes locally); inside an un-request call only "
+      "the content of that file's remote copy and the presence of its local copy change. "
+      "Tie on every run: (1) the gate model step by step against the real SmartSyncState._changeset, SmartSyncManager.pre_sync, "
+      "SmartCloudSync.smart_sync_* / smart_unsync_* / smart_listdir_path on random real entry tables; (2) seeded sequences on the real "
+      "SmartCloudSync over two MockProviders (drained after every action, or interleaved with intake/sync steps; three predicates; by local "
+      "path, remote path, id): extracted monitor on every observation, extracted smart_spec on both trees and the merged listing of every "
+      "folder at every quiescent point; (3) a deterministic set (corpus, exhaustive product of 9 boundary scenarios x predicate x request "
+      "flavour x engine-step slots, fixed-seed sample without the domain restrictions) whose failures are the listed findings S-1, S-2.",
+      ENGINE_NOTE + " C20 specifics: between quiescent points only the monitor guard judges (trees are compared at quiescent points only); "
+      "the sync step itself (manager.sync / embrace_change) is not modelled, only the gate in front of it; local deletes, renames and "
+      "edit/edit conflicts are outside the property's alphabet and are not generated; request / un-request of FOLDERS and requests by id of "
+      "an object the engine knows without a path are generated only in the deterministic set (findings S-2, S-1); for a request call that "
+      "raised something other than not-found, whether a request was left behind is read from the real request set.",
+      ENGINE_TECH + " + stepwise correspondence of a mechanism model on real entry tables", "DESIGN.md §6 C20")
+
+
 ALL = ["C%02d" % i for i in range(1, 21)]
 
 
